@@ -100,6 +100,11 @@ func RegisterTypeMigration(previousPkgPath, previousTypeName string, newType err
 	if f, ok := backwardRegistry[newKey]; ok {
 		panic(fmt.Errorf("migration to type %q already registered (from %q)", newKey, f))
 	}
+	// If the previous name is itself the result of a migration, the
+	// new type is encoded under the original name too.
+	if orig, ok := backwardRegistry[prevKey]; ok {
+		prevKey = orig
+	}
 	backwardRegistry[newKey] = prevKey
 	// If any other key was registered as a migration from newKey,
 	// we'll forward those as well.
